@@ -24,7 +24,8 @@ for name in sorted(os.listdir(os.path.join(V, 'seeded'))):
         rnd = ' abcdefghijklmn'.index(mm.group(1)) if mm.group(1) else 1
         m = json.load(open(os.path.join(V, 'seeded', name, 'meta.json')))
         first_missed = 'first run' in (m.get('history') or '') or \
-            'was missed' in (m.get('history') or '')
+            'was missed' in (m.get('history') or '') or \
+            (m.get('history') or '').startswith('not caught')
         by_round.setdefault(rnd, [0, 0])
         by_round[rnd][0] += 1
         by_round[rnd][1] += bool(first_missed)
@@ -36,7 +37,9 @@ section = ['### 9.6 Independently written breaking changes (`seeded/`)', '',
  'oracle, after which the change is caught (`tools/reseed.py` re-applies every patch to a scratch',
  'worktree of the current HEAD and re-runs the named check); the exceptions, where the named check does',
  'not apply and a neighbouring property\'s check catches the change, or where the change is not caught,',
- 'are said so in the bold note of their row.', '',
+ 'are said so in the bold note of their row. Round 9 (six changes, written in the last hour) was',
+ 'confirmed and run but not followed by strengthening: its two misses (`C05i`, `C09i`) are open gaps,',
+ 'described in their rows and in `seeded/<id>/meta.json`.', '',
  'Each change was written by a fresh sub-agent that saw only the property text and a scratch git',
  'worktree of the repository (nothing from /verif). Every entry was confirmed by `tools/seeded.py`:',
  'the author\'s `demo.py` exits 1 with the change and 0 without it, the pinned suite still passes with',
